@@ -152,7 +152,7 @@ fn c12_strategy(_tier: Tier) -> BoxedStrategy<Case> {
         gen::search_case(SearchOpts {
             prop: "C12",
             cfg: CfgOpts { sks: vec![Sk::Unanchored, Sk::Both], anchored: 0, casei: 1, ..CfgOpts::default() },
-            pats: PatOpts { w_empty: 8, max_class: 0, long: true, w_shapes: 3, w_adversarial: 0, w_fanout: 0 },
+            pats: PatOpts { w_empty: 8, max_class: 0, long: true, w_shapes: 3, w_adversarial: 1, w_fanout: 0 },
             hay: HayOpts { size_class: 1 },
             full_span_only: true,
             alphabets,
@@ -1069,6 +1069,14 @@ fn c20_strategy(tier: Tier) -> BoxedStrategy<Case> {
                 let len = if dfaish { len.min(12) } else { len };
                 let alpha = if seed & 2 == 0 { b"abcdefgh".to_vec() } else { full.clone() };
                 case.patterns = (0..n).map(|i| lcg_bytes(&mut sd, 1 + (i + len) % len.max(1), &alpha)).collect();
+                // every fourth list also holds a few empty patterns: every
+                // state then carries their matches (large match tables)
+                if seed % 4 == 1 {
+                    for k in 0..(1 + (seed >> 8) % 4) as usize {
+                        let at = (k * 977) % (case.patterns.len() + 1);
+                        case.patterns.insert(at, Vec::new());
+                    }
+                }
                 case.sub = "special:many-patterns".into();
             }
             4 => {
